@@ -37,6 +37,8 @@ import AdfProofs.FlushLemmas
 import AdfProofs.CreateFound
 import AdfProofs.CreateAppend
 import AdfProofs.RemoveUnlink
+import AdfProofs.SuccessReach
+import AdfProofs.CreateDirFound
 import AdfProofs.RefusalLemmas
 import AdfProofs.WriteReadLemmas
 import AdfProps.C15
@@ -251,5 +253,55 @@ theorem C02_removed_inner_is_unlinked (c : Cfg) (v pSect : Nat) (parent : Blk) (
         ChainOn c s'.disk v (parent.hash (hashName (useIntl (c.vol v).dosType) name)) (pre ++ (p, prev') :: post) ∧
         SameNameArea prev prev' ∧ s'.faultAt = none) :=
   removeEntryUnlink_inner c v pSect parent name pre p prev n b post s hf hrw hpar hch hlen hpre hm hdist hpp
+
+/-- non-vacuity of `C02_created_file_is_linked`: on a volume of sane geometry (`GeomOK`: mounted, inside the device, no
+    32-bit wrap) whose bitmap marks free only blocks of the volume other than the directory, a directory block with the
+    name's slot empty, written by the library's own block writer to its own position, yields a state that meets every
+    hypothesis of that theorem (healthy, valid directory at its self pointer, empty slot, free blocks readable and distinct
+    from the directory) -/
+theorem C02_success_hypotheses_reachable (c : Cfg) (v nParent : Nat) (name : Bytes) (dir0 : Blk) (s0 : St)
+    (g : GeomOK c v) (hrw : (c.vol v).readOnly = false) (hf : s0.faultAt = none)
+    (hn : nParent ≤ (c.vol v).lastBlock - (c.vol v).firstBlock)
+    (hB : ∀ k, bmIsFree (s0.mem.vol v).bitmapTable k = true → k ≤ (c.vol v).lastBlock - (c.vol v).firstBlock ∧ k ≠ nParent)
+    (hwf : BlkWF dir0) (hty : dir0.w F_type = T_HEADER) (hst : dir0.secType = ST_DIR) (hkey : dir0.w F_headerKey = nParent)
+    (hslot : dir0.hash (hashName (useIntl (c.vol v).dosType) name) = 0) :
+    ∃ s, run c (writeEntryBlock v nParent dir0) s0 = (.ok rcOK, s) ∧ s.faultAt = none ∧
+      EntryAt c s.disk v nParent (withSum dir0 F_checkSum) ∧ dirKey (c.vol v) (withSum dir0 F_checkSum) = nParent ∧
+      (withSum dir0 F_checkSum).hash (hashName (useIntl (c.vol v).dosType) name) = 0 ∧
+      (∀ k, bmIsFree (s.mem.vol v).bitmapTable k = true → k < 4294967296) ∧
+      (∀ k, bmIsFree (s.mem.vol v).bitmapTable k = true → 2 ≤ k → Readable c v k ∧ vsect c v k ≠ vsect c v nParent) :=
+  created_file_hypotheses_reachable c v nParent name dir0 s0 g hrw hf hn hB hwf hty hst hkey hslot
+
+/-- a block meeting the conditions on `dir0` above exists: a zeroed block with type, self pointer and secondary type set -/
+example (n : Nat) (hn : n < 4294967296) (i : Nat) (hi : i < 72) :
+    let d := ((zeroBlk.setW F_type T_HEADER).setW F_headerKey n).setW F_secType ST_DIR
+    BlkWF d ∧ d.w F_type = T_HEADER ∧ d.secType = ST_DIR ∧ d.w F_headerKey = n ∧ d.hash i = 0 := by
+  simp only
+  have hz := zeroBlk_wf
+  refine ⟨setW_wf _ _ _ (setW_wf _ _ _ (setW_wf _ _ _ hz)), ?_, ?_, ?_, ?_⟩
+  · rw [Blk.w_setW_ne _ _ _ _ (by decide), Blk.w_setW_ne _ _ _ _ (by decide)]
+    exact Blk.w_setW_same _ _ _ (by rw [hz.1]; decide) (by decide)
+  · unfold Blk.secType
+    exact Blk.w_setW_same _ _ _ (by rw [Blk.setW_length, Blk.setW_length, hz.1]; decide) (by decide)
+  · rw [Blk.w_setW_ne _ _ _ _ (by decide)]
+    exact Blk.w_setW_same _ _ _ (by rw [Blk.setW_length, hz.1]; decide) hn
+  · rw [hash_frame _ _ _ _ (Or.inr (by decide)) hi, hash_frame _ _ _ _ (Or.inl (by decide)) hi, hash_frame _ _ _ _ (Or.inl (by decide)) hi]
+    unfold Blk.hash Blk.w zeroBlk F_table
+    rw [List.getD_eq_getElem?_getD, List.getElem?_replicate]
+    split <;> rfl
+
+/-- **A created directory is linked under its name** (same statement as for files, for `adfCreateDir`'s link + block
+    write; the entry found is a directory) -/
+theorem C02_created_dir_is_linked (c : Cfg) (v nParent : Nat) (name : Bytes) (parent : Blk) (s : St)
+    (hnc : isDIRCACHE (c.vol v).dosType = false) (hf : s.faultAt = none) (hrw : (c.vol v).readOnly = false)
+    (hpar : EntryAt c s.disk v nParent parent) (hkey : dirKey (c.vol v) parent = nParent)
+    (hslot : parent.hash (hashName (useIntl (c.vol v).dosType) name) = 0)
+    (hsmall : ∀ k, bmIsFree (s.mem.vol v).bitmapTable k = true → k < 4294967296)
+    (hvol : ∀ k, bmIsFree (s.mem.vol v).bitmapTable k = true → 2 ≤ k → Readable c v k ∧ vsect c v k ≠ vsect c v nParent) :
+    Post AnyFault c (createDirLink v nParent name) s (fun r s' => r.2 = true →
+      ∃ b par' hdr, EntryAt c s'.disk v nParent par' ∧
+        ChainOn c s'.disk v (par'.hash (hashName (useIntl (c.vol v).dosType) name)) [(b, hdr)] ∧
+        nameMatches (useIntl (c.vol v).dosType) name hdr ∧ hdr.secType = ST_DIR ∧ s'.faultAt = none) :=
+  createDirLink_establishes c v nParent name parent s hnc hf hrw hpar hkey hslot hsmall hvol
 
 end Adf.C02
